@@ -118,8 +118,19 @@ async fn run_case(w: &World, c: &Case, idx: usize) -> Vec<(String, String)> {
         }
         return v;
     }
-    // ---- request reply
-    let (rep, rclosed) = read_n(&mut s, 10, 35_000).await; // longer than every documented timeout (30 s SYNACK, 15 s connect, 10 s DNS)
+    // ---- request reply: exactly one, its length given by its address type
+    let (mut rep, mut rclosed) = read_n(&mut s, 5, 35_000).await; // longer than every documented timeout (30 s SYNACK, 15 s connect, 10 s DNS)
+    if rep.len() == 5 {
+        let rest = match rep[3] {
+            1 => 4 + 2 - 1,
+            4 => 16 + 2 - 1,
+            3 => rep[4] as usize + 2,
+            _ => 5,
+        };
+        let (more, c) = read_n(&mut s, rest, 3000).await;
+        rep.extend_from_slice(&more);
+        rclosed = c;
+    }
     let success = rep.len() >= 2 && rep[0] == 5 && rep[1] == 0;
     match c.expect_tunnel {
         Some(target) => {
@@ -164,8 +175,11 @@ async fn run_case(w: &World, c: &Case, idx: usize) -> Vec<(String, String)> {
             }
             let _ = (before, after);
             if !success {
-                // failure: a non-zero reply code or a closed connection
-                let (_, c2) = read_all_or_idle(&mut s, 3000).await;
+                // failure: a non-zero reply code or a closed connection — and nothing after that one reply
+                let (extra, c2) = read_all_or_idle(&mut s, 3000).await;
+                if !extra.is_empty() && !rep.is_empty() {
+                    v.push(("C16:more-than-one-reply".into(), format!("{}: after the failure reply {:02x?} the front-end sent {} more bytes: {:02x?}", c.name, rep, extra.len(), &extra[..extra.len().min(24)])));
+                }
                 if rep.is_empty() && !(rclosed || c2) {
                     v.push(("C16:no-reply-and-not-closed".into(), format!("{}: neither a failure reply nor a close within 3 s", c.name)));
                 }
